@@ -279,6 +279,18 @@ class Builder:
             f = "exprloc" if self.v >= 4 else "block1"
             at = self.r.choice(["location", "frame_base", "data_member_location"])
             self.add(Die(TAG["variable"], [Attr(AT[at], FORM[f], e)]), Exp("loc", expr=e), "%s/%s %s" % (at, f, e.hex()), True)
+        # random expressions over every operand class (the generator and the expected operands are C17's): here the
+        # operations are read through `elem`, `label` and `value`, signs included
+        from .c17 import LocBuilder, expected_values
+        lb = LocBuilder(self.r, self.v)
+        for _ in range(6):
+            e, ops = lb.expression(allow_typed=False)
+            f = "exprloc" if self.v >= 4 else "block1"
+            if f == "block1" and len(e) > 255:
+                continue
+            want = [[code] + [v if k == "num" else v for k, v in vals] for code, off, vals in expected_values(ops, None)]
+            self.add(Die(TAG["variable"], [Attr(AT["location"], FORM[f], bytes(e))]), Exp("loc-ops", expr=bytes(e), want=want),
+                     "location/%s operations %s" % (f, bytes(e).hex()[:40]), True)
 
     def build(self):
         for fn in (self.strings, self.refs, self.flags, self.addresses, self.enumerated, self.lines, self.integrals, self.const_values, self.locations):
@@ -345,6 +357,16 @@ def judge(r, exp):
         return "block value: %r" % (res[0][-1] if res else None)
     if err:
         return "error: %s" % err
+    if k == "loc-ops":
+        got = []
+        for s_ in r["res"]:
+            row = []
+            for e in s_[-1]["e"]:
+                row.append([int(x["v"]) for x in e["e"]] if e["t"] == "q" else int(e["v"]))
+            got.append(row)
+        if got != exp.want:
+            return "operations read through elem/label/value: %r, stored %r" % (got[:4], exp.want[:4])
+        return None
     if len(res) != 1:
         return "yields %d values" % len(res)
     v = res[0][-1]
@@ -403,7 +425,9 @@ def work(task):
                         for die, exp, desc, nt in b.cases:
                             atname = None
                             q = "entry (offset == %d) attribute ?0 value" % die.offset
-                            r = drv.run(q, tok, limit=10, steps=1000000)
+                            if exp.kind == "loc-ops":
+                                q += " elem (|P| [P label, P value])"
+                            r = drv.run(q, tok, limit=40, steps=1000000)
                             ev.case(key=(desc, version), nontrivial=nt)
                             ev.label("class:" + desc.split("/")[0].split(" ")[0])
                             why = judge(r, exp)
